@@ -40,6 +40,7 @@ type walCase struct {
 	NoClose     bool    `json:"no_close,omitempty"`
 	DirectIO    bool    `json:"direct_io,omitempty"` // block aligned writer (O_DIRECT itself is a declared stub); no sync appends by design
 	ReadBuf     int     `json:"read_buf,omitempty"`  // buffer of the reader factory (0: the library's default reader)
+	Symlink     bool    `json:"symlink,omitempty"`   // the log's base path is a symbolic link to its directory
 }
 
 func walGen(r *rand.Rand, thorough bool) walCase {
@@ -87,6 +88,7 @@ func walGen(r *rand.Rand, thorough bool) walCase {
 	}
 	// replay through a reader factory with a small buffer in half of the cases: records larger than the read buffer
 	c.ReadBuf = pick(r, 0, 0, 0, 64, 128, 512, 4096)
+	c.Symlink = r.Intn(8) == 0
 	if r.Intn(30) == 0 {
 		// many files: every append rotates; "any number of rotations" must also hold for a process with an
 		// ordinary descriptor limit (the replay runs under a simulated limit of 16 open files)
@@ -121,9 +123,23 @@ type walRun struct {
 	closeSeq int
 }
 
+// walBase is the path the log is opened by: the directory itself, or a symbolic link to it
+func walBase(dir string, c walCase) string {
+	if !c.Symlink {
+		return dir
+	}
+	link := dir + ".lnk"
+	if _, err := os.Lstat(link); err != nil {
+		if err := os.Symlink(dir, link); err != nil {
+			panic(err)
+		}
+	}
+	return link
+}
+
 func walOptions(dir string, c walCase) (*wal.Options, error) {
 	return wal.NewWriteAheadLogOptions(
-		wal.BasePath(dir),
+		wal.BasePath(walBase(dir, c)),
 		wal.MaximumWalFileSizeBytes(c.MaxFileSize),
 		wal.WriterFactory(func(path string) (recordio.WriterI, error) {
 			if c.DirectIO {
@@ -142,6 +158,9 @@ func walOptions(dir string, c walCase) (*wal.Options, error) {
 
 func walExec(dir string, c walCase, tape *simrt.Tape) (*walRun, error) {
 	w := simrt.NewWorld(dir, tape)
+	if c.Symlink {
+		w.Alias = walBase(dir, c)
+	}
 	defer simrt.Deactivate()
 	run := &walRun{}
 	opts, err := walOptions(dir, c)
@@ -185,6 +204,9 @@ func walExec(dir string, c walCase, tape *simrt.Tape) (*walRun, error) {
 }
 
 func walReplayDir(dir string, c walCase) ([][]byte, error) {
+	if c.Symlink {
+		defer os.Remove(dir + ".lnk")
+	}
 	opts, err := walOptions(dir, c)
 	if err != nil {
 		return nil, err
@@ -235,6 +257,9 @@ func walCheck(c *Ctx, wc walCase, tape *simrt.Tape, count bool) []walViolation {
 			lw := simrt.NewWorld(dir, simrt.NewTape(1))
 			lw.Record = false
 			lw.FDLimit = 16
+			if wc.Symlink {
+				lw.Alias = walBase(dir, wc)
+			}
 			got, err := walReplayDir(dir, wc)
 			maxOpen := lw.MaxHandles
 			simrt.Deactivate()
